@@ -77,6 +77,9 @@ def obj (c : Cfg) (i : Nat) : Nat := (c.tensors.getD i default).obj
 def fails (c : Cfg) (i : Nat) : Bool := (c.tensors.getD i default).fails
 def cbFails (c : Cfg) (i : Nat) : Bool := (c.tensors.getD i default).cbFails
 def job (c : Cfg) (i : Nat) : Nat := (c.tensors.getD i default).job
+def file (c : Cfg) (i : Nat) : Nat := (c.tensors.getD i default).file
+def off (c : Cfg) (i : Nat) : Nat := (c.tensors.getD i default).off
+def data (c : Cfg) (i : Nat) : List Nat := (c.tensors.getD i default).data
 /-- tensor `i` is followed by another tensor of the same job (same shard) -/
 def hasNext (c : Cfg) (i : Nat) : Bool := decide (i + 1 < c.n) && (c.job (i + 1) == c.job i)
 end Cfg
@@ -170,11 +173,18 @@ def wake : Pc → Pc
   | .waiting => .woken
   | p => p
 
-/-- `file.seek(off); file.write(data)` on a file image; seeking past the end leaves a hole of
-    zeros (576-577, 603-606) -/
+/-- `file.seek(off); file.write(data)` on a file image; seeking past the end and then writing
+    leaves a hole of zeros (576-577, 603-606); writing nothing changes nothing -/
 def writeAt (f : List Nat) (off : Nat) (d : List Nat) : List Nat :=
-  let f' := f ++ List.replicate (off + d.length - f.length) 0
-  f'.take off ++ d ++ f'.drop (off + d.length)
+  if d.isEmpty then f
+  else
+    let f' := f ++ List.replicate (off + d.length - f.length) 0
+    f'.take off ++ d ++ f'.drop (off + d.length)
+
+/-- `_write_tensor_at` (385-397) of tensor `i` on the file images -/
+def writeTask (cfg : Cfg) (fs : List (List Nat)) (i : Nat) : List (List Nat) :=
+  let t := cfg.tensors.getD i default
+  fs.set t.file (writeAt (fs.getD t.file []) t.off t.data)
 
 /-- the pool thread leaves tensor `i`: return value / exception of `_write_one` goes into the
     future (parallel), or `_write_serial` proceeds to the next tensor of the shard and only an
@@ -222,10 +232,7 @@ def stepTask (cfg : Cfg) (s : State) (i : Nat) : Option State :=
   | some .woken => some (budgetTry cfg s i)
   | some .write =>
       if cfg.fails i then some { s with tasks := s.tasks.set i (.bRel false) }
-      else
-        let t := cfg.tensors.getD i default
-        some { s with files := s.files.set t.file (writeAt (s.files.getD t.file []) t.off t.data)
-                      tasks := s.tasks.set i (.bRel true) }
+      else some { s with files := writeTask cfg s.files i, tasks := s.tasks.set i (.bRel true) }
   | some (.bRel ok) => some (budgetRelease cfg s i ok)
   | _ => none
 
@@ -308,7 +315,7 @@ inductive Reachable (cfg : Cfg) : State → Prop
 
 /-- the image a serial save produces: every tensor written in index order -/
 def serialFiles (cfg : Cfg) : List (List Nat) :=
-  cfg.tensors.foldl (fun fs t => fs.set t.file (writeAt (fs.getD t.file []) t.off t.data)) cfg.files
+  (List.range cfg.n).foldl (writeTask cfg) cfg.files
 
 /-- decidable well-formedness of a configuration (see `WF` in Lemmas/WriterInv.lean) -/
 def wfb (cfg : Cfg) : Bool :=
@@ -316,7 +323,17 @@ def wfb (cfg : Cfg) : Bool :=
   (List.range cfg.nJobs).all (fun j =>
     decide (cfg.jobStarts.getD j 0 < cfg.n) && decide (cfg.job (cfg.jobStarts.getD j 0) = j) &&
     (List.range (cfg.jobStarts.getD j 0)).all (fun i => decide (cfg.job i ≠ j))) &&
-  (List.range cfg.n).all (fun i => decide (cfg.job i < cfg.nJobs) && decide (cfg.obj i < cfg.nObjs))
+  (List.range cfg.n).all (fun i => decide (cfg.job i < cfg.nJobs) && decide (cfg.obj i < cfg.nObjs)) &&
+  (List.range cfg.n).all (fun k => (List.range k).all (fun i =>
+    decide (cfg.job k = cfg.job i → cfg.job (i + 1) = cfg.job i)))
+
+/-- decidable layout condition (see `Layout` in Lemmas/WriterFiles.lean): every tensor goes to an
+    existing file and the byte ranges of different tensors in one file are disjoint -/
+def layoutb (cfg : Cfg) : Bool :=
+  (List.range cfg.n).all (fun i => decide (cfg.file i < cfg.files.length)) &&
+  (List.range cfg.n).all (fun i => (List.range cfg.n).all (fun j =>
+    decide (i ≠ j → cfg.file i = cfg.file j →
+      cfg.off i + (cfg.data i).length ≤ cfg.off j ∨ cfg.off j + (cfg.data j).length ≤ cfg.off i)))
 
 /-- all candidate labels of a configuration (for enumeration) -/
 def labels (cfg : Cfg) : List Label :=
